@@ -280,6 +280,12 @@ func (ls *LockState) SameHold(a, b ssa.Instruction, field string, write bool) (b
 	if !ls.At(b).HasField(field, write) {
 		return false, "lock not held at " + ls.p.InstrPos(b)
 	}
+	// order the two sites along the control flow: the hold has to be uninterrupted from the earlier to the later one
+	if _, ab := PathExists(PathQuery{Fn: ls.fn, After: a, Target: func(x ssa.Instruction) bool { return x == b }}); !ab {
+		if _, ba := PathExists(PathQuery{Fn: ls.fn, After: b, Target: func(x ssa.Instruction) bool { return x == a }}); ba {
+			a, b = b, a
+		}
+	}
 	rel := func(in ssa.Instruction) bool {
 		op, ok := ls.p.lockOpOf(in) // also inside transparent helpers
 		return ok && !op.Deferred && !op.Acquire && op.Field == field
